@@ -68,7 +68,107 @@ func (x *Exec) needUnwind(what string) {
 	}
 }
 
+// ---- proof mode: a channel is an object with ghost state (the sequence of values sent so far and
+// the closed flag). A goroutine started with `go` is verified separately against its own
+// contract; at the go statement its precondition is checked and whatever it may write is
+// forgotten (it runs concurrently). What a receiver sees is the sent sequence in order (channel
+// FIFO semantics, trusted).
+const (
+	clChanSent   = "f:chan.$sent"
+	clChanN      = "f:chan.$nsent"
+	clChanClosed = "f:chan.$closed"
+)
+
+var chanSentSort = term.Arr(term.Int, term.Int)
+
+func chanGhostSort(name string) (string, *term.Sort) {
+	switch name {
+	case "sent":
+		return clChanSent, chanSentSort
+	case "nsent":
+		return clChanN, term.Int
+	case "closed":
+		return clChanClosed, term.Bool
+	}
+	return "", nil
+}
+
+func (x *Exec) chanGet(st *State, class string, so *term.Sort, ref *T) *T {
+	return term.Select(x.heapArr(st, class, so), ref)
+}
+
+func (x *Exec) chanSet(st *State, class string, so *term.Sort, ref, v *T) {
+	st.Heap[class] = term.Store(x.heapArr(st, class, so), ref, v)
+}
+
+func (x *Exec) proofMakeChan(st *State, ins *ssa.MakeChan) {
+	ref := x.allocRef(st)
+	x.chanSet(st, clChanSent, chanSentSort, ref, term.ConstArr(chanSentSort, term.I(0)))
+	x.chanSet(st, clChanN, term.Int, ref, term.I(0))
+	x.chanSet(st, clChanClosed, term.Bool, ref, term.False)
+	x.set(st, ins, VT{ref, ins.Type()})
+}
+
+func (x *Exec) proofSend(st *State, ins *ssa.Send) {
+	ref := x.getT(st, ins.Chan)
+	v, ok := scalar(x.get(st, ins.X))
+	if !ok || v.Sort != term.Int {
+		x.fail("proof-mode channels carry integer-like elements only")
+	}
+	x.oblige(st, "nil", "send on nil channel", term.Ne(ref, term.I(0)), ins.Pos())
+	x.oblige(st, "unreachable", "send on closed channel", term.Not(x.chanGet(st, clChanClosed, term.Bool, ref)), ins.Pos())
+	x.oblige(st, "frame", "send", x.allowed(clChanSent, ref, nil), ins.Pos())
+	n := x.chanGet(st, clChanN, term.Int, ref)
+	x.chanSet(st, clChanSent, chanSentSort, ref, term.Store(x.chanGet(st, clChanSent, chanSentSort, ref), n, v))
+	x.chanSet(st, clChanN, term.Int, ref, term.Add(n, term.I(1)))
+}
+
+func (x *Exec) proofClose(st *State, chv Val) {
+	ref, _ := scalar(chv)
+	x.oblige(st, "nil", "close of nil channel", term.Ne(ref, term.I(0)), token.NoPos)
+	x.oblige(st, "unreachable", "close of closed channel", term.Not(x.chanGet(st, clChanClosed, term.Bool, ref)), token.NoPos)
+	x.oblige(st, "frame", "close", x.allowed(clChanClosed, ref, nil), token.NoPos)
+	x.chanSet(st, clChanClosed, term.Bool, ref, term.True)
+}
+
+// proofGo: the goroutine's function must be under contract; its precondition is an obligation
+// here, its effects (everything it may write) become unknown, its postcondition is NOT assumed.
+func (x *Exec) proofGo(st *State, ins *ssa.Go) {
+	if ins.Call.IsInvoke() {
+		x.fail("go on an interface method is not supported")
+	}
+	var fn *ssa.Function
+	var binds []Val
+	switch v := ins.Call.Value.(type) {
+	case *ssa.Function:
+		fn = v
+	case *ssa.MakeClosure:
+		fn = v.Fn.(*ssa.Function)
+		for _, b := range v.Bindings {
+			binds = append(binds, x.get(st, b))
+		}
+	default:
+		x.fail("go on a dynamic function value is not supported in proof mode")
+	}
+	spec := x.P.Specs[fn]
+	if spec == nil {
+		x.fail("go %s: the goroutine's function has no contract", fnName(fn))
+	}
+	args := make([]Val, len(ins.Call.Args))
+	for i, a := range ins.Call.Args {
+		args[i] = x.get(st, a)
+	}
+	x.pendingBinds = binds
+	x.spawning = true
+	defer func() { x.spawning = false }()
+	x.applyContract(st, fn, spec, fn.Signature, args, ins.Pos(), "go "+fnName(fn))
+}
+
 func (x *Exec) doMakeChan(st *State, ins *ssa.MakeChan) {
+	if x.Mode == ModeProof {
+		x.proofMakeChan(st, ins)
+		return
+	}
 	x.needUnwind("make(chan)")
 	if sz, ok := x.getT(st, ins.Size).Int64(); !ok || sz != 0 {
 		x.fail("only unbuffered channels are modelled")
@@ -100,6 +200,10 @@ func (x *Exec) chanOf(v Val) *chanObj {
 }
 
 func (x *Exec) doGo(st *State, ins *ssa.Go) {
+	if x.Mode == ModeProof {
+		x.proofGo(st, ins)
+		return
+	}
 	x.needUnwind("go statement")
 	s := x.sched()
 	args := make([]Val, len(ins.Call.Args))
@@ -179,6 +283,10 @@ func (x *Exec) park(st *State) {
 }
 
 func (x *Exec) doSend(st *State, ins *ssa.Send) bool {
+	if x.Mode == ModeProof {
+		x.proofSend(st, ins)
+		return true
+	}
 	x.needUnwind("channel send")
 	ch := x.chanOf(x.get(st, ins.Chan))
 	if ch.closed {
@@ -201,6 +309,10 @@ func (x *Exec) doSend(st *State, ins *ssa.Send) bool {
 }
 
 func (x *Exec) doClose(st *State, chv Val) {
+	if x.Mode == ModeProof {
+		x.proofClose(st, chv)
+		return
+	}
 	x.needUnwind("close")
 	ch := x.chanOf(chv)
 	if ch.closed {
